@@ -174,6 +174,7 @@ func main() {
 		sort.Strings(cfgs)
 		extraCov["configs"] = cfgs
 		extraCov["per_config"] = perCfg
+		extraCov["dependency_audit"] = dependencyAudit(*repo, *verif)
 		sv := runSeeds(*prop, *repo, *verif)
 		extraCov["self_validation"] = sv
 		if sv.Blind > 0 || sv.FalseAlarms > 0 {
@@ -259,4 +260,39 @@ func lastLine(s string) string {
 		return s[i+1:]
 	}
 	return s
+}
+
+// dependencyAudit compares the module versions pinned in the repository's go.mod with the versions the
+// trusted-base assumptions were reviewed against (trusted_deps.json).  A difference is reported in the
+// evidence as "stale"; it is a prompt to re-read the assumptions, not a violation of any property.
+func dependencyAudit(repo, verif string) map[string]interface{} {
+	out := map[string]interface{}{}
+	var reviewed struct {
+		Reviewed map[string]string `json:"reviewed"`
+	}
+	if b, err := os.ReadFile(filepath.Join(verif, "trusted_deps.json")); err == nil {
+		json.Unmarshal(b, &reviewed)
+	}
+	pinned := map[string]string{}
+	if b, err := os.ReadFile(filepath.Join(repo, "go.mod")); err == nil {
+		for _, ln := range strings.Split(string(b), "\n") {
+			if strings.Contains(ln, "// indirect") {
+				continue
+			}
+			f := strings.Fields(strings.TrimPrefix(strings.TrimSpace(ln), "require "))
+			if len(f) >= 2 && strings.Contains(f[0], "/") && strings.HasPrefix(f[1], "v") {
+				pinned[f[0]] = f[1]
+			}
+		}
+	}
+	var stale []string
+	for m, v := range pinned {
+		if rv, ok := reviewed.Reviewed[m]; !ok || rv != v {
+			stale = append(stale, fmt.Sprintf("%s %s (reviewed: %q)", m, v, rv))
+		}
+	}
+	sort.Strings(stale)
+	out["modules_pinned"] = len(pinned)
+	out["assumptions_stale_for"] = stale
+	return out
 }
